@@ -13,6 +13,7 @@ import SMGo.Gen.SM3Const
 import SMGo.Spec.SM4
 import SMGo.Model.SM4Inst
 import Driver.SM2
+import Driver.GCM
 open SMGo
 
 def parseBytes (s : String) : Option Bytes :=
@@ -103,6 +104,7 @@ def handle (line : String) : String :=
   let toks := (line.splitOn " ").filter (· ≠ "")
   if let some r := handleSM4 toks then r else
   if let some r := Driver.SM2.handle toks then r else
+  if let some r := Driver.GCM.handle toks then r else
   match toks with
   | ["cmp", a, b, l] =>
     match parseOptBytes a, parseOptBytes b, l.toInt? with
